@@ -200,7 +200,10 @@ def gen_op(rng, rows, fresh):
         newrows = [fresh.take(int(rng.integers(1, 6))) for _ in range(k)]
         return op, (newrows,)
     if op in ('binop', 'rbinop', 'aug'):
-        o = ['add', 'sub', 'mul'][int(rng.integers(0, 3))]
+        # division-like operators only where the divisor is a non-zero
+        # constant / array (reflected forms would divide by the data)
+        o = ['add', 'sub', 'mul', 'truediv', 'floordiv', 'mod'][
+            int(rng.integers(0, 6 if op == 'binop' else 3))]
         other = 'scalar' if (op == 'rbinop' or rng.random() < 0.5) else 'ra'
         return op, (o, other, int(rng.integers(2, 5)))
     if op == 'cmp':
@@ -215,7 +218,9 @@ def gen_op(rng, rows, fresh):
 
 
 PYOP = {'add': lambda x, y: x + y, 'sub': lambda x, y: x - y,
-        'mul': lambda x, y: x * y, 'eq': lambda x, y: x == y,
+        'mul': lambda x, y: x * y, 'truediv': lambda x, y: x / y,
+        'floordiv': lambda x, y: x // y, 'mod': lambda x, y: x % y,
+        'eq': lambda x, y: x == y,
         'ne': lambda x, y: x != y, 'lt': lambda x, y: x < y,
         'le': lambda x, y: x <= y, 'gt': lambda x, y: x > y,
         'ge': lambda x, y: x >= y}
